@@ -315,6 +315,10 @@ def strat_hist_op(tier):
                      st.fixed_dictionaries({'op': st.just('clear'), 'which': st.sampled_from(['mdft', 'czt', 'both'])}),
                      st.fixed_dictionaries({'op': st.just('precision'), 'bits': st.sampled_from([32, 64])}),
                      st.fixed_dictionaries({'op': st.just('repeat'), 'idx': st.integers(0, 30)}),
+                     # a call that fails (wrong dimensionality / a Q that is not a number / no output size) and is caught by the caller: whatever it left
+                     # behind in the executor must not change later answers (nothing is asserted about the failing call itself)
+                     st.fixed_dictionaries({'op': st.just('failed-call'), 'fn': st.sampled_from(['dft2', 'idft2', 'czt2', 'iczt2']),
+                                            'how': st.sampled_from(['3d-input', '1d-input', 'Q-not-a-number', 'no-output-size'])}),
                      # the partner of an earlier call: the return leg of a round trip (other direction, input and output grids swapped,
                      # same Q and shift), the other direction on the same grids, or the same function on the swapped grids
                      st.fixed_dictionaries({'op': st.just('partner'), 'idx': st.integers(0, 30), 'seed': st.integers(0, 50),
@@ -362,6 +366,16 @@ class ExecutorHistory:
             self.config.precision = op['bits']
             self.prec = op['bits']
             ctx.label('op:precision')
+            return
+        if op['op'] == 'failed-call':
+            live = self.ft.mdft if op['fn'] in ('dft2', 'idft2') else self.ft.czt
+            args = {'3d-input': (np.ones((2, 3, 2)), 1, 4), '1d-input': (np.ones(4), 1, 4), 'Q-not-a-number': (np.ones((4, 4)), 'x', 4),
+                    'no-output-size': (np.ones((4, 4)), 1, None)}[op['how']]
+            try:
+                getattr(live, op['fn'])(*args)
+                ctx.label('op:failed-call:did-not-raise')
+            except Exception:      # noqa - the caller of an invalid request catches whatever comes
+                ctx.label('op:failed-call:raised')
             return
         if op['op'] == 'repeat':
             if not self.calls:
